@@ -9,7 +9,8 @@ replay = replay_generic
 EVENTS = ['Da', 'Db', 'Dl', 'Aa', 'Ab', 'Ra', 'Rb', '{', 'for{', 'fn{', '}']
 
 
-def render(hist):
+def render(hist, names=None):
+    names = names or {'a': 'a', 'b': 'b'}
     out = []
     stack = []
     k = [0]
@@ -19,18 +20,18 @@ def render(hist):
         if ev == 'Dl':
             out.append('%s%s a = %d, b = %d;' % (ind, VAR, k[0], k[0] + 500)); out.append('%s%s "%s";' % (ind, PRINT, ev))
         elif ev[0] == 'D':
-            out.append('%s%s %s = %d;' % (ind, VAR, ev[1], k[0])); out.append('%s%s "%s";' % (ind, PRINT, ev))
+            out.append('%s%s %s = %d;' % (ind, VAR, names[ev[1]], k[0])); out.append('%s%s "%s";' % (ind, PRINT, ev))
         elif ev[0] == 'A':
-            out.append('%s%s = %d;' % (ind, ev[1], k[0] * 10)); out.append('%s%s "%s";' % (ind, PRINT, ev))
+            out.append('%s%s = %d;' % (ind, names[ev[1]], k[0] * 10)); out.append('%s%s "%s";' % (ind, PRINT, ev))
         elif ev[0] == 'R':
-            out.append('%s%s %s;' % (ind, PRINT, ev[1]))
+            out.append('%s%s %s;' % (ind, PRINT, names[ev[1]]))
         elif ev == '{':
             out.append(ind + '{'); stack.append(('}', None))
         elif ev == 'for{':
             out.append('%s%s (%s a = %d; a < %d; a = a + 1000) {' % (ind, FOR, VAR, k[0] * 100, k[0] * 100 + 1)); stack.append(('}', None))
         elif ev == 'fn{':
             fn = 'f%d' % k[0]
-            out.append('%s%s %s(b) {' % (ind, FUN, fn)); stack.append(('}', fn))
+            out.append('%s%s %s(%s) {' % (ind, FUN, fn, names['b'])); stack.append(('}', fn))
         elif ev == '}':
             closer, fn = stack.pop()
             ind = '  ' * len(stack)
@@ -73,6 +74,10 @@ def run(env, tier, seed, broken=None):
     L = 5 if tier == 'quick' else 7
     for h in histories(L, rng, 0.35 if tier == 'quick' else 0.3):
         cases.append({'id': 'h%d' % n, 'src': render(h)}); n += 1
+        # the same history with the parameter named like a built-in (the parser reserves those names for ধরি and
+        # ফাংশন declarations only: as a parameter such a name is an ordinary local that shadows the global)
+        if 'fn{' in h and 'Db' not in h and 'Dl' not in h:
+            cases.append({'id': 'h%d' % n, 'src': render(h, {'a': 'a', 'b': [LEN, ABS, INPUT, MAX][n % 4]})}); n += 1
     extra = [
         '%s a = 1;\n{ %s a = 2; { %s a = 3; %s a; } %s a; }\n%s a;\n' % (VAR, VAR, VAR, PRINT, PRINT, PRINT),
         '%s a = 1;\n{ a = 2; }\n%s a;\n{ %s b = 5; }\n%s b;\n' % (VAR, PRINT, VAR, PRINT),
@@ -94,6 +99,16 @@ def run(env, tier, seed, broken=None):
         '%s f(p) { %s p = 1; %s p; }\n%s f(%s);\n' % (FUN, VAR, RETURN, PRINT, NIL), '{ %s z; { z = 1; } %s z; %s z; }\n' % (VAR, PRINT, VAR),
         '%s = 7;\n%s %s;\n%s inner() { %s = 8; }\ninner();\n%s %s;\n' % (ABS, PRINT, ABS, FUN, ABS, PRINT, ABS),
     ]
+    for B in (LEN, ABS, POW, INPUT, KEYS, CLOCK):
+        extra += [
+            '%s f(%s) { %s %s; { %s %s; { %s = %s + 1; %s %s; } } %s (%s < 5) { %s = %s + 1; } %s %s; }\n%s f(1);\n%s %s;\n' % (FUN, B, PRINT, B, PRINT, B, B, B, PRINT, B, WHILE, B, B, B, RETURN, B, PRINT, PRINT, B),
+            '%s tw(x) { %s x * 2; }\n%s ap(%s, v) { %s %s(v); }\n%s ap(tw, 21);\n%s ap2(%s) { { %s %s(4) + (%s)(5); } }\n%s ap2(tw);\n' % (FUN, RETURN, FUN, B, RETURN, B, PRINT, FUN, B, RETURN, B, B, PRINT),
+            '%s mk(%s) { %s inner() { %s %s; } %s inner; }\n%s mk(9)();\n%s %s;\n' % (FUN, B, FUN, RETURN, B, RETURN, PRINT, PRINT, B),
+            '%s g(%s) { %s (%s i = 0; i < 2; i = i + 1) { %s %s + i; } %s (%s) { %s %s; } }\ng(7);\n' % (FUN, B, FOR, VAR, PRINT, B, IF, TRUE, PRINT, B),
+            '%s h(%s) { %s = "local"; { %s = %s + "!"; } %s %s; }\nh(0);\n%s %s;\n' % (FUN, B, B, B, B, PRINT, B, PRINT, B),
+        ]
+    # a closure reads an outer variable, then the enclosing block declares the same name: outside the property's domain
+    # (static vs dynamic resolution), kept out of the generators on purpose
     for e in extra:
         cases.append({'id': 'e%d' % n, 'src': e}); n += 1
     for i in range(1500 if tier == 'quick' else 40000):
